@@ -35,7 +35,7 @@ class Interp:
     # ------------------------------------------------------------------ path state
     def reset_path(self, decisions=None):
         self.pc = []; self.decisions = list(decisions or []); self.dpos = 0; self.pending = []
-        self.obligations = []; self.stack = []; self.lib_used = set()
+        self.obligations = []; self.stack = []; self.lib_used = set(); self.fstrings = []
     def assume(self, c):
         c = toz3(c)
         if not z3.is_true(z3.simplify(c)): self.pc.append(c)
@@ -317,15 +317,17 @@ class Interp:
                 if all(self.truth(self.ev(c, env3, mod)) for c in g.ifs): rec(gi + 1, env3)
         rec(0, dict(env)); return out
     def ev_JoinedStr(self, e, env, mod):
-        parts = []
+        parts = []; vals = []
+        self.fstrings = getattr(self, "fstrings", [])
         for v in e.values:
             if isinstance(v, ast.Constant): parts.append(str(v.value))
             else:
-                val = self.ev(v.value, env, mod)
+                val = self.ev(v.value, env, mod); vals.append(val)
                 if v.format_spec is not None:
                     spec = self.ev(v.format_spec, env, mod)
                     self.check_format_spec(spec, val)
                 parts.append("{" + (str(val) if isinstance(val, (str, int, float)) else "?") + "}")
+        self.fstrings.append(vals)                       # interpolated values of every f-string evaluated on this path (contracts on messages)
         if len(parts) == 1 and isinstance(e.values[0], ast.FormattedValue):
             val = self.ev(e.values[0].value, env, mod)
             if isinstance(val, FormatSpec): return val
